@@ -1026,6 +1026,147 @@ def rule_r7(chk, prog, reg):
                       nontrivial=True)
 
 
+# --------------------------------------------------------------------- R9
+MUTATING = ('append', 'extend', 'insert', 'remove', 'pop', 'clear', 'sort',
+            'reverse', '__delitem__', '__setitem__')
+
+
+def rule_r9(chk, prog, reg):
+    chk.rule('C14.R9', 'what the pass builders schedule is what runs: '
+             'detection sees the user\'s input only (once, before any '
+             'reduction), the strategies do not return before their loop '
+             'over the passes and never modify the pass lists')
+    cli = prog.mod('cli')
+    mainf = cli.func('ddsmt_main')
+    cfg = cfg_of(mainf)
+    det, red = [], []
+    for c in calls_in(mainf):
+        nm = call_name(c) or ''
+        if nm.endswith('auto_detect_theories'):
+            det.append((expr_owner_node(cfg, c), c))
+        elif nm.startswith('strategy_') and nm.endswith('.reduce'):
+            red.append((expr_owner_node(cfg, c), c))
+
+    def reaches(a, b):
+        seen, work = set(), [a]
+        while work:
+            n = work.pop()
+            for e in n.succ:
+                if e.dst is b:
+                    return True
+                if e.dst not in seen:
+                    seen.add(e.dst)
+                    work.append(e.dst)
+        return False
+
+    chk.floor('C14.R9', 'detection calls in ddsmt_main', len(det), 1)
+    for (dn, dc) in det:
+        after = [unparse(rc.func) for (rn, rc) in red if reaches(rn, dn)]
+        chk.check('C14.R9', 'cli.ddsmt_main', dc, not after,
+                  f'automatic detection runs (again) after {after}: it then '
+                  'sees a reduced input, from which the declarations of a '
+                  'theory may already be gone, and disables a group although '
+                  'the input the user gave declares something of that '
+                  'theory - its mutators are missing from the following '
+                  'passes', loc=cli.loc(dc), nontrivial=True)
+    # detection anywhere else in the package
+    for om in prog.pkg_modules():
+        if 'tests' in om.rel() or om.name == 'cli':
+            continue
+        for c in ast.walk(om.tree):
+            if isinstance(c, ast.Call) and (call_name(c) or '').endswith(
+                    'auto_detect_theories'):
+                chk.check('C14.R9', om.name, c, False,
+                          'automatic detection is called outside '
+                          'ddsmt_main, on an input that is not the user\'s',
+                          loc=om.loc(c), nontrivial=True)
+    # the strategies
+    for modname, builder in (('strategy_hierarchical', 'get_passes'),
+                             ('strategy_ddmin', 'ddmin_passes')):
+        m = prog.mod(modname)
+        f = m.func('reduce')
+        where = f'{modname}.reduce'
+        fcfg = cfg_of(f)
+        pv = None
+        for st in walk_no_nested(f):
+            if isinstance(st, ast.Assign) and isinstance(
+                    st.value, ast.Call) and (call_name(
+                        st.value) or '').split('.')[-1] == builder and \
+                    isinstance(st.targets[0], ast.Name):
+                pv = st.targets[0].id
+        if pv is None:
+            raise AnalysisError(f'C14.R9: {where}: call of {builder}() not '
+                                'bound to a local')
+        loops = [l for l in walk_no_nested(f)
+                 if isinstance(l, (ast.For, ast.While))
+                 and any(isinstance(x, ast.Name) and x.id == pv
+                         for x in ast.walk(l))]
+        outer = [l for l in loops if not any(
+            l is not o and l in list(ast.walk(o)) for o in loops)]
+        if not outer:
+            raise AnalysisError(f'C14.R9: {where}: no loop over "{pv}"')
+        marks = {fcfg.node_of[id(outer[0])]: 'passes-loop'}
+        IN, _ = fcfg.dominators_facts(marks)
+        nret = 0
+        for r in walk_no_nested(f):
+            if isinstance(r, ast.Return):
+                nret += 1
+                n = fcfg.node_of[id(r)]
+                ok = 'passes-loop' in (IN[n] or ())
+                if not ok:
+                    # an early return that does not depend on the passes
+                    # (e.g. nothing to reduce) schedules nothing because
+                    # there is nothing to schedule for
+                    fts = facts_at(f, r)
+                    dep = any(pv in {x.id for x in ast.walk(
+                        ast.parse(t, mode='eval'))
+                        if isinstance(x, ast.Name)} or 'options' in t
+                              for (t, _) in fts)
+                    if not dep:
+                        chk.info('C14.R9', f'{where}: early return at '
+                                 f'{m.loc(r)} does not depend on the passes')
+                        continue
+                chk.check('C14.R9', where, r, ok,
+                          'the strategy can return before it has entered '
+                          f'its loop over "{pv}": the mutators of the '
+                          'passes not looked at (e.g. those that only the '
+                          'last pass contains) are enabled but never '
+                          'scheduled', loc=m.loc(r), nontrivial=True)
+        chk.floor('C14.R9', f'returns of {where}', nret, 1)
+        # aliases of the pass lists: loop targets / subscripts of pv
+        for x in walk_no_nested(f):
+            bad = None
+            if isinstance(x, (ast.Assign, ast.AugAssign, ast.Delete)):
+                tg = x.targets if isinstance(x, (ast.Assign, ast.Delete)) \
+                    else [x.target]
+                for t in tg:
+                    if isinstance(t, ast.Subscript) and isinstance(
+                            t.value, ast.Name) and t.value.id == pv:
+                        bad = x
+                    if isinstance(t, ast.Name) and t.id == pv and not (
+                            isinstance(x, ast.Assign) and isinstance(
+                                x.value, ast.Call) and (call_name(
+                                    x.value) or '').split('.')[-1] ==
+                            builder):
+                        bad = x
+            if isinstance(x, ast.Call) and isinstance(
+                    x.func, ast.Attribute) and x.func.attr in MUTATING:
+                base = x.func.value
+                while isinstance(base, ast.Subscript):
+                    base = base.value
+                if isinstance(base, ast.Name) and base.id == pv:
+                    bad = x
+            if bad is not None:
+                chk.check('C14.R9', where, bad, False,
+                          f'the pass lists built by {builder}() are modified '
+                          'while the strategy runs: a mutator that is '
+                          'enabled is dropped from the following rounds',
+                          loc=m.loc(bad), nontrivial=True)
+        chk.instance('C14.R9', where, f'"{pv}" is bound once and not '
+                     'modified', True, 'no store, delete or mutating call '
+                     'on the pass lists', nontrivial=True)
+
+
 # --------------------------------------------------------------------- R8
 SORT_POS = {'declare-const': 2, 'declare-fun': 3, 'define-fun': 3,
             'define-sort': 3}
@@ -1169,6 +1310,7 @@ def run(tier):
     chk.guard(rule_r6, chk, prog, reg)
     chk.guard(rule_r7, chk, prog, reg)
     chk.guard(rule_r8, chk, prog, reg)
+    chk.guard(rule_r9, chk, prog, reg)
     extra = None
     if tier == 'thorough':
         from .. import selftest
